@@ -52,6 +52,8 @@ def _note(v, info):
     if info is not None:
         with np.errstate(all="ignore"):
             a = np.abs(np.asarray(v, dtype=float))
+            if not np.all(np.isfinite(a)):
+                info["nonfinite"] = True  # an intermediate value left the range of double precision (or is undefined)
             a = a[np.isfinite(a)]
             if a.size:
                 info["scale"] = max(info.get("scale", 0.0), float(a.max()))
